@@ -209,6 +209,36 @@ func TestMatrix(t *testing.T) {
 			try("nested", k, fmt.Sprintf(`{"n":{%q:%s}}`, fixschema.Nested(k), sh))
 		}
 	}
+	// component grids: a value assembled from numeric components is parsed piece by
+	// piece, and each piece has its own boundaries (month 0 and 13, day 0 and 32,
+	// hour 24, second 60, year 0 / 10000 / negative, short and long fields)
+	grid := map[string][]string{}
+	for _, y := range []string{"0000", "0001", "2020", "9999", "10000", "-001", "20", ""} {
+		for _, m := range []string{"00", "0", "1", "01", "12", "13", "99", ""} {
+			for _, d := range []string{"00", "0", "1", "28", "29", "30", "31", "32", "99", ""} {
+				grid["date"] = append(grid["date"], y+"-"+m+"-"+d)
+			}
+		}
+	}
+	for _, date := range []string{"2020-01-01", "2020-00-10", "2020-13-01", "2020-02-30", "0000-01-01", "10000-01-01"} {
+		for _, clock := range []string{"00:00:00", "24:00:00", "23:60:00", "23:59:60", "23:59:61", "-1:00:00", "1:2:3", "00:00", "00:00:00.", "00:00:00.0000000001"} {
+			for _, zone := range []string{"Z", "z", "+00:00", "+24:00", "-00:60", "+0000", "", " Z"} {
+				grid["timestamp"] = append(grid["timestamp"], date+"T"+clock+zone)
+			}
+		}
+	}
+	for _, k := range fixschema.Kinds {
+		for _, v := range grid[k.Name] {
+			sh := fmt.Sprintf("%q", v)
+			try("grid:plain", k, fmt.Sprintf(`{%q:%s}`, fixschema.Plain(k), sh))
+			try("grid:array-element", k, fmt.Sprintf(`{%q:[%s,%s]}`, fixschema.Repeated(k), k.Valid, sh))
+			try("grid:map-value", k, fmt.Sprintf(`{%q:{"k":%s}}`, fixschema.Map(k), sh))
+			try("grid:oneof-arm", k, fmt.Sprintf(`{"w":{%q:%s}}`, fixschema.Arm(k), sh))
+			c := docCase{Root: root, Query: map[string][]string{fixschema.Plain(k): {v}}}
+			r.Eval(true, vf.Hash("gridq", k.Name, v), "pos:grid:query", "kind:"+k.Name)
+			r.JudgeNoFatal(c, check(s, c))
+		}
+	}
 	// the containers themselves and the root
 	for _, sh := range shapes {
 		for _, key := range []string{"w", "n", "exp", "flat", "unknownKey", "!type", ""} {
